@@ -282,12 +282,15 @@ Definition ydo_init (hf : nat) (y : ysim) (r : repl) : ysim * cres * bool :=
       let s2 := set_created [] (set_clock (r_start r) (set_rep (Some r) (set_worker WAlive s1))) in
       let ya := mkY s2 initial_subs (ym_streams M) 0 (y_dlv y) (y_drw y) m1 (y_pre y) [] in
       let '(y3, failed) := yexec hf InConstruct ya (hbody 0) in
-      let y4 := if failed then yflag y3 else y3 in
-      let s5 := set_ps PInit (set_rs RInit (y_sim y4)) in
+      if failed then
+        (* construct_model raised: initialize is aborted (as in Sim/Model.v) *)
+        (with_sim y3 (set_ps PNotInit (set_rs RNotInit (y_sim y3))), ResRaised, false)
+      else
+      let s5 := set_ps PInit (set_rs RInit (y_sim y3)) in
       let s6 := if r_warm r <? clock s5 then raise_flag s5
                 else let e := mkEv (r_warm r) 10 (nid s5) HWarm 0 in
                      set_nid (nid s5 + 1) (set_pend (ins e (pend s5)) s5) in
-      (with_sim y4 s6, ResOk, false).
+      (with_sim y3 s6, ResOk, false).
 
 Definition ydo_end_repl (fuel hf : nat) (y : ysim) : ysim * cres :=
   let s := y_sim y in
